@@ -12,7 +12,8 @@ pub struct C19;
 const SHARED_SLOT: u8 = 3;
 
 fn thread_call(rng: &mut Rng, tid: usize, sc: &mut Scenario, have_files: &mut bool) -> Call {
-    let src = match rng.below(13) {
+    let src = match rng.below(15) {
+        13 | 14 => gen::repeated_construct(rng),
         12 => gen::netlist_program(rng),
         10 | 11 => {
             // several threads deep inside nested constructs at the same time (a shared budget shows only then)
